@@ -35,7 +35,7 @@ type spFam struct {
 	slots   map[string]string // gauge account address -> slot label (per scenario)
 	lastBuy M
 	cw, iw  int64
-	fine    bool              // block times with sub-hour (down to millisecond) offsets
+	fine    bool                // block times with sub-hour (down to millisecond) offsets
 	gdep    map[string]*big.Int // harness-side ledger: total deposited per gauge account (per scenario)
 	grel    map[string]*big.Int // total released per gauge account
 }
@@ -331,7 +331,7 @@ func (f *spFam) apply(st M, gb0 map[string]int64) M {
 				msg.Expires = h + 100
 			}
 			func() {
-				defer func() { recover(); }()
+				defer func() { recover() }()
 				kbs := sz * spUnit * mp / 1000
 				if kbs < 1024 {
 					kbs = 1024
